@@ -12,6 +12,48 @@ from .. import panicinv as PI, mir as M, dflow as D
 LAYERS = ["json"]
 
 
+def worker_loop_exits(P, res, fn_name, rule="WORKER-LOOP", floor=1):
+    """the request loop of a worker thread leaves only when its channel is closed: every exit edge of the loop comes from the
+    switch on the result of recv() / the channel iterator's next(). Any other exit (a flag, a counter) drops the requests
+    that are still queued without an answer. Shared by C09 (eval_worker) and C30 (session_worker)."""
+    w = P.require_fn(fn_name)
+    loops = D.natural_loops(w)
+    res.floor(rule, "loops in %s" % fn_name.split("::")[-1], len(loops), floor)
+    byh = {}
+    for (h, a, body) in loops:
+        byh.setdefault(h, set()).update(body)
+    # only loops that dequeue
+    deq = [bi for bi, t in w.calls() if (M.callee_name(t) or "").endswith(("::recv", "Iterator>::next")) and ("mpsc" in (M.callee_name(t) or "") or (M.callee_name(t) or "").endswith("Receiver::<T>::recv"))]
+    for h, body in byh.items():
+        if deq and not any(d in body for d in deq):
+            continue
+        exits = {(b, s) for b in body for s in w.succ[b] if s not in body and w.blocks[s]["term"]["t"] != "unreachable"}
+        okx = True
+        for (b, s) in exits:
+            t = w.blocks[b]["term"]
+            if t["t"] != "switch":
+                okx = False
+                continue
+            r = w.root_of(t["discr"])
+            src = None
+            if r[0] == "rv" and r[3]["rv"]["k"] == "discr":
+                d = w.single_def(r[3]["rv"]["place"]["l"])
+                if d and d[1] == "term":
+                    src = M.callee_name(d[2]) or ""
+            if src is None and r[0] == "call" and (M.callee_name(r[2]) or "").endswith(("::is_err", "::is_ok")) and r[2]["args"]:
+                # `if tx.send(resp).is_err() { break }`: the peer that would read the answers is gone
+                r2 = w.root_of(r[2]["args"][0])
+                if r2[0] == "call" and (M.callee_name(r2[2]) or "").endswith("Sender::<T>::send"):
+                    src = "response channel closed::recv"
+            if not (src and (src.endswith("::recv") or src.endswith("::next"))):
+                okx = False
+        if okx:
+            res.ok(rule, "%s loop at bb%d leaves only on channel close" % (fn_name.split("::")[-1], h))
+        else:
+            res.bad(rule, "%s # loop-exit" % fn_name,
+                    "%s's request loop has an exit that is not the channel-closed case: requests still in the queue are never answered" % fn_name.split("::")[-1], w.loc())
+
+
 def run(ctx, res):
     P = ctx.P
     PI.valstack_writers(P, res)
@@ -66,35 +108,7 @@ def run(ctx, res):
         res.bad("RESPONSE-ONCE", "json_session::handle_request_in_worker # responses on a return path in [%d,%d]" % r,
                 "a path through handle_request_in_worker sends between %d and %s responses" % (r[0], "%d" % r[1] if r[1] < 3 else "3+"),
                 f.loc(f.blocks[x]["term"].get("span")))
-    # ---- WORKER-LOOP
-    w = P.require_fn("json_session::eval_worker")
-    loops = D.natural_loops(w)
-    res.floor("WORKER-LOOP", "loops in eval_worker", len(loops), 1)
-    byh = {}
-    for (h, a, body) in loops:
-        byh.setdefault(h, set()).update(body)
-    for h, body in byh.items():
-        exits = {(b, s) for b in body for s in w.succ[b] if s not in body and w.blocks[s]["term"]["t"] != "unreachable"}
-        # every exit edge must come from the recv() result switch (channel closed)
-        okx = True
-        for (b, s) in exits:
-            t = w.blocks[b]["term"]
-            if t["t"] != "switch":
-                okx = False
-                continue
-            r = w.root_of(t["discr"])
-            src = None
-            if r[0] == "rv" and r[3]["rv"]["k"] == "discr":
-                d = w.single_def(r[3]["rv"]["place"]["l"])
-                if d and d[1] == "term":
-                    src = M.callee_name(d[2]) or ""
-            if not (src and (src.endswith("::recv") or src.endswith("::next"))):
-                okx = False
-        if okx:
-            res.ok("WORKER-LOOP", "eval_worker loop at bb%d leaves only on channel close" % h)
-        else:
-            res.bad("WORKER-LOOP", "json_session::eval_worker # loop-exit",
-                    "eval_worker's request loop has an exit that is not the channel-closed case", w.loc())
+    worker_loop_exits(P, res, "json_session::eval_worker")
     # ---- FRAMING-EXACT: the reader must consume exactly Content-Length bytes for a request (read_exact); a short
     # read turns one request into a truncated request plus a header-less line, i.e. two error responses.
     js = P.require_fn("json_session::json_session")
